@@ -10,6 +10,7 @@ through the Lean L1 model, which must agree with the real endpoints datagram by 
 import multiprocessing, os, random, traceback
 import prudp_session as ps
 import l1_corr
+import c04_keylen
 from sim import ticks
 
 LEVEL = "proof"
@@ -392,7 +393,10 @@ def make_setup(cfg, mode, plan_filter, seed, allow=None):
                 return
             for kind, ptype, flags, fdata in forge_other_encoding(cfg, s, tx, pk[0], out.session_key):
                 inj(tx.src, tx.dst, fdata, D + (EPS if flags & 4 else 3 * EPS), ("forged", kind, ptype, flags, tx.n))
+        keylen_hook = c04_keylen.make_hook(cfg, s, out, inj, D, EPS) if mode.startswith("keylen") else None
         def on_tx(tx):
+            if keylen_hook is not None:
+                return keylen_hook(tx)
             if mode == "other-encoding":
                 return on_tx_other(tx)
             if mode == "idle-trickle":
@@ -501,6 +505,14 @@ def run_pair(cfg, seed, mode, plan_filter=None, allow=None, want_ref=True):
         ref = ps.run_session(cfg, seed & 0xFFFF, script, fate, phases_gap=4.5) if want_ref else None
         att = ps.run_session(cfg, seed & 0xFFFF, script, fate, phases_gap=4.5, setup=make_setup(cfg, mode, plan_filter, seed, allow))
         return ref, att
+    if mode.startswith("keylen"):
+        # keylen:<script shape>:<fate> - see harness/c04_keylen.py
+        _, shape, fname = mode.split(":")
+        script = c04_keylen.script(cfg, random.Random(seed), shape)
+        fate = (lambda sim, r: c04_keylen.lose_first_fate(cfg, cfg.settings(), D)) if fname == "lose-first" else (lambda sim, r: (lambda tx: [D]))
+        ref = ps.run_session(cfg, seed & 0xFFFF, script, fate, phases_gap=1.0) if want_ref else None
+        att = ps.run_session(cfg, seed & 0xFFFF, script, fate, phases_gap=1.0, setup=make_setup(cfg, mode, plan_filter, seed, allow))
+        return ref, att
     # the same genuine datagrams are lost in both runs: a forged acknowledgement then shows (no retransmission)
     # (decided by the datagram's content and how often it has been sent, not by a global index: two endpoints acting at
     # the same virtual instant have no defined order)
@@ -524,6 +536,8 @@ def strict(cfg, desc):
     control state (v0 signs data only) but must never make a payload appear"""
     if is_d18(desc):
         return False
+    if desc[0] == "forged" and desc[1].startswith("key:"):
+        return True          # (harness/c04_keylen.py forges only what the encoding binds to the session key)
     if desc[0] == "forged" and desc[1] in ("unknown-peer-connect", "other-encoding", "keyless-connect", "other-udp-port"):
         return True          # "in every encoding a handshake packet with a wrong signature establishes nothing"
     if cfg.version != 0:
@@ -713,6 +727,7 @@ def run(ctx):
                 "(exhaustive sessions) or 24 sampled bits per datagram, 6 double flips per datagram, and forged packets of 12 type/flag "
                 "combinations x {wrong access key, wrong session key, wrong connection signature, wrong session id, spoofed port}, CONNECT acknowledgements with a valid packet signature but a connection response made without the session key, SYN / CONNECT acknowledgements carrying the sequence id of an unacknowledged DATA / PING / DISCONNECT packet, CONNECTs from an address that never sent a SYN signed with a cookie never handed out, the client's own CONNECT re-sent after the handshake "
                 "with another session id / connection-signature option (must be handled like a retransmission), idle connections (several keep-alive periods) with a trickle of invalid datagrams, "
+                "packets right in everything but the session key's LENGTH (signed with the empty key, all-zero keys of the right and of the other standard length, the genuine key cut by a byte / in half / extended by a zero byte): DATA reliable and unreliable, DISCONNECT, PING, their acknowledgements and aggregate acks, towards the server and towards the client, at the instant the connection comes to exist at the receiver, at four instants of an idle period in which the receiver has seen no genuine non-handshake packet, and before / after every later reliable packet plus acknowledgements of that packet sent to its sender, with either side the first to speak and with the first transmission of every reliable packet lost (v1, v0 signature_version 0; sessions with credentials), "
                 "injected just before/after the genuine datagram; v1 with/without credentials, v0 variants; every attacked v1/v0 run "
                 "is replayed through the Lean L1 model; distinct non-trivial = injected datagrams")
     jobs = []
@@ -744,6 +759,17 @@ def run(ctx):
     for _ in range(6 if quick else 60):
         jobs.append((n, dict(base, version=1, credentials=ctx.rng.random() < 0.5, max_substream=ctx.rng.choice([0, 1]),
                              fragment_size=ctx.rng.choice([3, 7, 50])), ctx.rng.getrandbits(32), "flip1-sample")); n += 1
+    # forgeries right in everything but the session key's length (empty key, zero keys, cut / extended keys): harness/c04_keylen.py
+    for rep in range(1 if quick else 4):
+        for shape in "ABC":
+            for fname in ("lose-first", "none"):
+                jobs.append((n, dict(base, version=1, credentials=True, **({} if rep == 0 else dict(fragment_size=ctx.rng.choice([3, 7, 50]), max_substream=ctx.rng.choice([0, 1])))),
+                             ctx.rng.getrandbits(32), "keylen:%s:%s" % (shape, fname))); n += 1
+        jobs.append((n, dict(base, version=1, credentials=True, key_size=16), ctx.rng.getrandbits(32), "keylen:%s:lose-first" % "ABC"[rep % 3])); n += 1
+    v0k = [((0, 1, 1), "A", "lose-first"), ((0, 1, 1), "B", "none"), ((0, 0, 0), "B", "lose-first"), ((0, 0, 0), "C", "none")] if quick else \
+          [((0, b, c), shape, fname) for b in (0, 1) for c in (0, 1) for shape in "ABC" for fname in ("lose-first", "none")]
+    for v0, shape, fname in v0k:
+        jobs.append((n, dict(base, version=0, v0=v0, credentials=True), ctx.rng.getrandbits(32), "keylen:%s:%s" % (shape, fname))); n += 1
     drv = ctx.driver("C02")
     ndiff, first = 0, None
     with multiprocessing.Pool(min(16, os.cpu_count() or 4)) as pool:
